@@ -615,6 +615,14 @@ def _build(case):
                 order = first + later
                 trs = [trs[k] for k in order]
                 stage = len(first)
+                if hr.random() < 0.5:
+                    # degenerate call in between: an edge entirely OUTSIDE the index extent is added first (the index
+                    # documents that it ignores it); it keeps its edge number, and the edges added after it must be
+                    # found under THEIR numbers
+                    far = gen.make_track([(ext[1] + 1000.0, ext[3] + 1000.0, 0.0), (ext[1] + 1003.0, ext[3] + 1001.0, 0.0)])
+                    far._vt_ignored = True
+                    trs.insert(stage, far)
+                    M.CTX.count("network_staged_build:edge_outside_extent_added_first")
             else:
                 how = "index"
         for k, t in enumerate(trs):
@@ -691,7 +699,8 @@ def run_case(case, ctx):
         return violated(w, sig, True, sorted(cls))
     si, trs = built
     g = _Grid(si)
-    feats = [[(t.getObs(i).position.getX(), t.getObs(i).position.getY()) for i in range(t.size())] for t in trs]
+    feats = [[] if getattr(t, "_vt_ignored", False) else
+             [(t.getObs(i).position.getX(), t.getObs(i).position.getY()) for i in range(t.size())] for t in trs]
 
     # premise: the published grid tiles the extent and the extent holds every feature
     ctx.monitor("grid.tiles_extent")
@@ -843,7 +852,7 @@ def run_case(case, ctx):
             if not _is_listlike(r):
                 return fail("neighborhood(coord, unit) did not return a list", q, {"unit": u, "got": repr(r)}, mech)
             got = set(r)
-            dist = [G.point_polyline_dist(p, pts) for pts in feats]
+            dist = [G.point_polyline_dist(p, pts) if pts else float("inf") for pts in feats]
             need = set(f for f, dd in enumerate(dist) if dd <= d - EPS)
             if d == 0:
                 cls.add("nbh_d0")
